@@ -180,6 +180,67 @@ func (rn *runner) one(req Req) (recursive bool) {
 	return
 }
 
+// exhaustive small-scope enumeration (thorough tier): every single-rule grammar
+// `doc = x`, `doc = op x`, `doc = x OP y`, `doc = op (x OP y)` over a small alphabet of atoms,
+// against every input of up to 3 words (blank-separated and glued).
+func exhaustive(rn *runner, kind string) {
+	atoms := []*Node{kw("a"), kw("b"), nd("class", "INT")}
+	words := []string{"a", "b", "1"}
+	if kind == "c28" {
+		atoms = []*Node{kw("a"), nd("true", ""), ref("doc"), opt(kw("a")), nd("space", "")}
+		words = []string{"a", "b"}
+	}
+	var base []*Node
+	base = append(base, atoms...)
+	for _, x := range atoms {
+		base = append(base, star(x), plus(x), opt(x))
+	}
+	var exprs []*Node
+	exprs = append(exprs, base...)
+	for _, x := range base {
+		for _, y := range base {
+			exprs = append(exprs, seq(x, y), alt(x, y), nd("list", "", x, y), nd("adj", "", x, y))
+		}
+	}
+	for _, x := range atoms {
+		for _, y := range atoms {
+			exprs = append(exprs, star(seq(x, y)), star(alt(x, y)), opt(seq(x, y)), plus(alt(x, y)), star(nd("adj", "", x, y)))
+		}
+	}
+	var inputs []string
+	var rec func(prefix []string, depth int)
+	rec = func(prefix []string, depth int) {
+		inputs = append(inputs, strings.Join(prefix, " "))
+		if len(prefix) >= 2 {
+			inputs = append(inputs, strings.Join(prefix, ""))
+			inputs = append(inputs, prefix[0]+strings.Join(prefix[1:], " "))
+		}
+		if depth == 3 {
+			return
+		}
+		for _, w := range words {
+			rec(append(append([]string{}, prefix...), w), depth+1)
+		}
+	}
+	rec(nil, 0)
+	n0 := rn.o.N
+	for _, e := range exprs {
+		g := gr(ru("doc", e))
+		text := g.Text()
+		for _, in := range inputs {
+			if rn.one(Req{G: g, Text: text, Input: in, Procs: "-"}) {
+				break
+			}
+		}
+		if rn.pool.Hangs+rn.pool.Crashes >= 6 {
+			break
+		}
+	}
+	rn.o.Stats["exhaustive_grammars"] = len(exprs)
+	rn.o.Stats["exhaustive_inputs_each"] = len(inputs)
+	rn.o.Stats["exhaustive_cases"] = rn.o.N - n0
+}
+
 // Main is the entry point of harness/cmd/c28 and harness/cmd/c29.
 func Main(kind string) {
 	worker := flag.Bool("worker", false, "serve match requests on stdin (child process)")
@@ -234,6 +295,9 @@ func Main(kind string) {
 		}
 	}
 	o.Stats["corpus_cases"] = o.N
+	if f.Tier == "thorough" {
+		exhaustive(rn, kind)
+	}
 	r := vh.NewRand(f.Seed)
 	for i := 0; i*perGrammar < f.N; i++ {
 		rr := r.Fork(i)
